@@ -847,17 +847,19 @@ class Session:
             # a per-individual revert applied while a doubly cached entry of the fork is not finite: where the blend
             # old*mask + cur*~mask (before fe0cadd) and the selection differ
             stk = self.states[k]
+            fin = lambda x: bool((x.value if hasattr(x, "weighted_value") else x).isfinite().all())
             for c, old in stk._last_fork.items():
                 cur = stk._values[c]
-                fin = lambda x: bool((x.value if hasattr(x, "weighted_value") else x).isfinite().all())
                 if old is not None and cur is not None and (hasattr(old, "weighted_value") or hasattr(cur, "weighted_value")):
                     # a per-individual revert applied while a doubly cached entry of the fork is a WeightedTensor: `_select` has
                     # to select the weight row by row too
                     if "weighted-mask" not in self.taint[k]:
                         self.taint[k].add("weighted-mask")
                     self.weighted_masks += 1
-                    if not same_tensor(old.weight, cur.weight):
+                    if not same_tensor(getattr(old, "weight", None), getattr(cur, "weight", None)):
                         self.weight_flipping_masks += 1
+            for c, old in stk._last_fork.items():
+                cur = stk._values[c]
                 if old is not None and cur is not None and not (fin(old) and fin(cur)):
                     self.taint[k].add("nonfinite-mask")
                     self.nonfinite_masks += 1
